@@ -21,6 +21,7 @@ Qed.
 Lemma take_length : forall limit l, (0 <= limit)%Z -> (Z.of_nat (length (take limit l)) <= limit)%Z.
 Proof.
   intros. unfold take. replace (limit <? 0)%Z with false by lia.
+  destruct (Z.of_nat (length l) <=? limit)%Z eqn:E; [lia|].
   pose proof (firstn_le_length (Z.to_nat limit) l). rewrite firstn_length. lia.
 Qed.
 
